@@ -72,7 +72,7 @@ func c10Gen(tier string, seed uint64, i int) any {
 	if c.Profile == "large" && c.Frames > 150 {
 		c.Frames = 150
 	}
-	c.Chunks = []string{"one", "prefix", "mid", "full", "mix", "frame", "mix", "prefix"}[i%8]
+	c.Chunks = []string{"one", "prefix", "mid", "full", "mix", "frame", "mix", "prefix"}[r.Intn(8)] // by PRNG, so that every chunking meets every option selected by the index below
 	if c.Chunks == "one" && c.Frames > 120 {
 		c.Frames = 120
 	}
